@@ -154,14 +154,17 @@ func (w *world) mint(kind string) func(req *types.GenerateServerCertificatesRequ
 }
 
 type kase struct {
-	Part    string   `json:"part"` // rogue | honest | history
-	Kind    string   `json:"kind,omitempty"`
-	Wrapper bool     `json:"storage_wrapper,omitempty"`
-	Extras  bool     `json:"extra_alpn,omitempty"`
-	State   bool     `json:"client_state,omitempty"`
-	Unix    bool     `json:"unix,omitempty"`
-	Path    []string `json:"path,omitempty"`
-	Seed    int64    `json:"seed"`
+	Part    string `json:"part"` // rogue | honest | history
+	Kind    string `json:"kind,omitempty"`
+	Wrapper bool   `json:"storage_wrapper,omitempty"`
+	Extras  bool   `json:"extra_alpn,omitempty"`
+	State   bool   `json:"client_state,omitempty"`
+	Unix    bool   `json:"unix,omitempty"`
+	// ExactSkews: the listener's option list (the operator's, shared with root
+	// rotation) sets both clock skews to zero, and the clock moves during the dial
+	ExactSkews bool     `json:"exact_skews,omitempty"`
+	Path       []string `json:"path,omitempty"`
+	Seed       int64    `json:"seed"`
 }
 
 func (w *world) oneRogue(kind string, r *engine.Report) (string, string) {
@@ -295,8 +298,14 @@ func (w *world) oneHonest(k kase, r *engine.Report) (string, string) {
 	if k.State {
 		dopt = append(dopt, nodeenrollment.WithState(harness.Struct(map[string]any{"s": 1.0, "site": "dc-1", "tier": "gold", "tags": []any{"a", "b"}, "owner": "alice", "zone": "z9", "rack": 12.0, "slot": 3.0, "role": "worker", "gen": 7.0, "pool": "p2", "env": "prod"})))
 	}
+	lopt := sopt
+	if k.ExactSkews {
+		lopt = append(append([]nodeenrollment.Option{}, sopt...), nodeenrollment.WithNotBeforeClockSkew(0), nodeenrollment.WithNotAfterClockSkew(0))
+		vclock.Tick(dialTime) // every clock read is a nanosecond later than the one before
+		defer vclock.Freeze(dialTime)
+	}
 	var derr error
-	rs, serr := harness.Serve(harness.ServerConfig{Storage: st, Options: sopt, Unix: k.Unix}, func(addr string) {
+	rs, serr := harness.Serve(harness.ServerConfig{Storage: st, Options: lopt, Unix: k.Unix}, func(addr string) {
 		conn, e := protocol.Dial(harness.Ctx, n.Store, addr, dopt...)
 		derr = e
 		if conn != nil {
@@ -313,7 +322,7 @@ func (w *world) oneHonest(k kase, r *engine.Report) (string, string) {
 		ok = ok || a.Authenticated
 	}
 	if derr != nil || !ok {
-		return "honest-refused", fmt.Sprintf("a registered node with valid credentials could not connect to its own server (storage wrapper %v, extra ALPN %v, state %v, unix %v): %v; accepts %v", k.Wrapper, k.Extras, k.State, k.Unix, derr, rs)
+		return "honest-refused", fmt.Sprintf("a registered node with valid credentials could not connect to its own server (storage wrapper %v, extra ALPN %v, state %v, unix %v, listener with zero skews under a moving clock %v): %v; accepts %v", k.Wrapper, k.Extras, k.State, k.Unix, k.ExactSkews, derr, rs)
 	}
 	r.Branch("honest:connected")
 	if k.Unix {
@@ -620,12 +629,12 @@ func run(c *engine.Ctx, r *engine.Report) {
 		}
 		r.Nontrivial(1)
 	}
-	for m := 0; m < 16; m++ {
+	for m := 0; m < 32; m++ {
 		i++
 		if !c.Mine(i) {
 			continue
 		}
-		k := kase{Part: "honest", Wrapper: m&1 != 0, Extras: m&2 != 0, State: m&4 != 0, Unix: m&8 != 0, Seed: c.Seed}
+		k := kase{Part: "honest", Wrapper: m&1 != 0, Extras: m&2 != 0, State: m&4 != 0, Unix: m&8 != 0, ExactSkews: m&16 != 0, Seed: c.Seed}
 		r.Eval(1)
 		if sig, msg := w.oneHonest(k, r); sig != "" {
 			r.Violate(sig, msg, k)
@@ -703,7 +712,7 @@ func init() {
 	engine.Register(&engine.CheckDef{
 		ID:    "C07",
 		Level: "exploration",
-		Rule: "real protocol.Dial of a registered node against 9 hand-built server constructions (foreign roots; stale certificate minted for another nonce; minted without nonce; another node's client certificate; self-signed with the right nonce; chained to a trusted root with a wrong EKU / an expired leaf; right chain but certificate preference ignored / honoured), 16 honest configurations (storage wrapper x extra ALPN x client state x tcp/unix) against the real listener, the client configurations built for client state x 0..6 extra protocols (one per valid chain, each naming its own chain), and a BFS (quick depth 8, thorough 14) over {authorize, dial, advance 1/4 lifetime, rotate roots} in virtual time for a node that starts unregistered, with and without a storage wrapper on the node's side; " +
+		Rule: "real protocol.Dial of a registered node against 9 hand-built server constructions (foreign roots; stale certificate minted for another nonce; minted without nonce; another node's client certificate; self-signed with the right nonce; chained to a trusted root with a wrong EKU / an expired leaf; right chain but certificate preference ignored / honoured), 32 honest configurations (storage wrapper x extra ALPN x client state x tcp/unix) against the real listener, the client configurations built for client state x 0..6 extra protocols (one per valid chain, each naming its own chain), and a BFS (quick depth 8, thorough 14) over {authorize, dial, advance 1/4 lifetime, rotate roots} in virtual time for a node that starts unregistered, with and without a storage wrapper on the node's side; " +
 			"distinct_nontrivial = rogue kinds + honest configurations judged + canonical history states",
 		Assumptions: []string{"the two constructions that need a trusted root's private key are built with the server's own key (a real rogue could not)", "in histories a dial must succeed whenever the node holds a chain strictly inside its validity under a root the server still holds and that is valid; ties are not judged"},
 		Shards:      func(c *engine.Ctx) int { return 4 },
